@@ -284,3 +284,132 @@ Print Assumptions C01_runtime_fetch_full_statement_refuted.
    of the theorem on these values *)
 Example C01_genruntime_examples : X.Bridge.BrRuntime.genruntime_examples_statement.
 Proof. exact X.Bridge.BrRuntime.genruntime_examples. Qed.
+
+(* ---- CAPSTONE (BC/SourceCorrect.v): the ties above COMPOSED into one statement over the regenerated terms ---- *)
+(* schemes regenerated from compiler/compiler.go -> code P; dispatch loop regenerated from vm/vm.go, run on P from a
+   machine in ANY state -> value / failure class / location / call trace of the language definition.  No hand-written
+   compiler or VM occurs in the statement; the executable side condition run_guard (the visited states are states on
+   which model VM and Go text do not part) is what remains of them. *)
+Require X.BC.SourceCorrect X.BC.SchemesItems X.BC.Assemble X.BC.Decode X.BC.AsmRules X.gen.GenAssemble.
+
+Theorem C01_source_pipeline_correct :
+  forall fe cfg env c e dc before,
+    fn_no_machine fe -> compilable e = true -> (esize e <= dc)%nat ->
+    exists P, gen_compile_program GenSchemes.schemes dc (c_mapenv cfg) c e = Some P /\
+    exists d0, forall d, (d0 <= d)%nat ->
+      VMSteps.run_guard fe cfg env P d init_state = true ->
+      option_map VMSteps.erase_stop_mem (VMSteps.interp_run fe cfg env P GenVMSteps.vm_src d before)
+      = Some (VMSteps.erase_stop_mem (run_ref fe cfg env c e)).
+Proof. exact X.BC.SourceCorrect.source_pipeline_correct. Qed.
+Print Assumptions C01_source_pipeline_correct.
+
+(* down to the bytes: regenerated schemes -> items; regenerated emit / makeConstant / placeholder / patchJump /
+   calcBackwardJump / encode in the regenerated skeleton of Compile -> Program; structural decoder -> IR; regenerated
+   loop -> run_ref.  items_keys_exact: no by-value struct constant with a negative-zero field (C05) *)
+Theorem C01_source_bytes_pipeline_correct :
+  forall fe cfg env c e dc before,
+    fn_no_machine fe -> compilable e = true -> (esize e <= dc)%nat ->
+    exists its, X.BC.SchemesItems.gen_items_program GenSchemes.schemes dc (c_mapenv cfg) c e = Some its /\
+    forall p, X.BC.AsmRules.src_assemble X.gen.GenAssemble.asm_src its = X.BC.Assemble.CProgram p ->
+              X.BC.Assemble.items_keys_exact its = true ->
+    exists C, X.BC.Decode.decode p = X.BC.Decode.DOk C /\
+    exists d0, forall d, (d0 <= d)%nat ->
+      VMSteps.run_guard fe cfg env C d init_state = true ->
+      option_map VMSteps.erase_stop_mem (VMSteps.interp_run fe cfg env C GenVMSteps.vm_src d before)
+      = Some (VMSteps.erase_stop_mem (run_ref fe cfg env c e)).
+Proof. exact X.BC.SourceCorrect.source_bytes_pipeline_correct. Qed.
+Print Assumptions C01_source_bytes_pipeline_correct.
+
+(* the regenerated assembler never gets stuck on the regenerated items: a Program, or the recovered error *)
+Theorem C01_source_bytes_assembles_or_errors :
+  forall mapenv c e dc, compilable e = true -> (esize e <= dc)%nat ->
+    exists its, X.BC.SchemesItems.gen_items_program GenSchemes.schemes dc mapenv c e = Some its /\
+      (X.BC.AsmRules.src_assemble X.gen.GenAssemble.asm_src its = X.BC.Assemble.CError \/
+       exists p, X.BC.AsmRules.src_assemble X.gen.GenAssemble.asm_src its = X.BC.Assemble.CProgram p).
+Proof. exact X.BC.SourceCorrect.source_bytes_assembles_or_errors. Qed.
+Print Assumptions C01_source_bytes_assembles_or_errors.
+
+(* non-vacuity: filter(map([1, 2, 3], {# + 1}), {# > 2 ? true : false}) on a dirty machine, IR level and byte level
+   (hypotheses compilable / run_guard / items_keys_exact, both sides of the conclusion) *)
+Example C01_source_pipeline_nonvacuous :
+  compilable X.BC.SourceCorrect.cap_ex = true /\
+  match X.BC.SourceCorrect.cap_code with
+  | Some P =>
+      List.length P = 65%nat /\
+      VMSteps.run_guard BrVMSteps.w_fe BrVMSteps.w_cfg VNil P 9 init_state = true /\
+      VMSteps.interp_run BrVMSteps.w_fe BrVMSteps.w_cfg VNil P GenVMSteps.vm_src 9 X.BC.SourceCorrect.cap_dirty
+      = Some (run_ref BrVMSteps.w_fe BrVMSteps.w_cfg VNil CastNone X.BC.SourceCorrect.cap_ex)
+  | None => False
+  end /\
+  run_ref BrVMSteps.w_fe BrVMSteps.w_cfg VNil CastNone X.BC.SourceCorrect.cap_ex
+  = Done (VArr TIface [vint 3; vint 4]) (mkRS 8 []).
+Proof. exact X.BC.SourceCorrect.source_pipeline_nonvacuous. Qed.
+
+Example C01_source_bytes_pipeline_nonvacuous :
+  match X.BC.SourceCorrect.cap_items with
+  | Some its =>
+      X.BC.Assemble.items_keys_exact its = true /\
+      match X.BC.AsmRules.src_assemble X.gen.GenAssemble.asm_src its with
+      | X.BC.Assemble.CProgram p =>
+          List.length (X.BC.Decode.p_bytes p) = 143%nat /\
+          match X.BC.Decode.decode p with
+          | X.BC.Decode.DOk C =>
+              VMSteps.run_guard BrVMSteps.w_fe BrVMSteps.w_cfg VNil C 9 init_state = true /\
+              VMSteps.interp_run BrVMSteps.w_fe BrVMSteps.w_cfg VNil C GenVMSteps.vm_src 9 X.BC.SourceCorrect.cap_dirty
+              = Some (run_ref BrVMSteps.w_fe BrVMSteps.w_cfg VNil CastNone X.BC.SourceCorrect.cap_ex)
+          | _ => False
+          end
+      | _ => False
+      end
+  | None => False
+  end.
+Proof. exact X.BC.SourceCorrect.source_bytes_pipeline_nonvacuous. Qed.
+
+Example C01_source_pipeline_fn_hypothesis : fn_no_machine BrVMSteps.w_fe.
+Proof. exact X.BC.SourceCorrect.w_fe_no_machine. Qed.
+
+(* ---- which parts of run_guard are theorems for compiled code (BC/SourceGuard.v) ---- *)
+(* run_guard = (1) pc on an instruction, (2) vm.memory a non-negative Go int, (3) the budget a Go int, (4) number of
+   open scopes a Go int, (5) vm_in_scope_at.  (1) holds of every run that does not end in the malformed-bytecode
+   failure, (2) of ANY code (the counter only grows and stays below the budget): the capstone needs (3) - a condition
+   on the configuration - and the executable run_guard_dyn = (4) + (5) only. *)
+Require X.BC.SourceGuard.
+
+Theorem C01_run_guard_of_dyn :
+  forall fe cfg env C d r,
+    X.BC.SourceGuard.cfg_int cfg = true -> run_code fe cfg env C d = Some r -> not_machine r ->
+    X.BC.SourceGuard.run_guard_dyn fe cfg env C d init_state = true -> VMSteps.run_guard fe cfg env C d init_state = true.
+Proof. exact X.BC.SourceGuard.run_guard_of_dyn_init. Qed.
+Print Assumptions C01_run_guard_of_dyn.
+
+Theorem C01_source_pipeline_correct_dyn :
+  forall fe cfg env c e dc before,
+    fn_no_machine fe -> compilable e = true -> (esize e <= dc)%nat -> X.BC.SourceGuard.cfg_int cfg = true ->
+    exists P, gen_compile_program GenSchemes.schemes dc (c_mapenv cfg) c e = Some P /\
+    exists d0, forall d, (d0 <= d)%nat ->
+      X.BC.SourceGuard.run_guard_dyn fe cfg env P d init_state = true ->
+      option_map VMSteps.erase_stop_mem (VMSteps.interp_run fe cfg env P GenVMSteps.vm_src d before)
+      = Some (VMSteps.erase_stop_mem (run_ref fe cfg env c e)).
+Proof. exact X.BC.SourceGuard.source_pipeline_correct_dyn. Qed.
+Print Assumptions C01_source_pipeline_correct_dyn.
+
+(* (1) is not implied by the rest on arbitrary code: a jump into the middle of an instruction *)
+Example C01_alignment_is_not_implied :
+  X.BC.SourceGuard.cfg_int BrVMSteps.w_cfg = true /\
+  X.BC.SourceGuard.run_guard_dyn BrVMSteps.w_fe BrVMSteps.w_cfg VNil X.BC.SourceGuard.misaligned_code 2 init_state = true /\
+  VMSteps.run_guard BrVMSteps.w_fe BrVMSteps.w_cfg VNil X.BC.SourceGuard.misaligned_code 2 init_state = false /\
+  run_code BrVMSteps.w_fe BrVMSteps.w_cfg VNil X.BC.SourceGuard.misaligned_code 2 = Some (Stop EMachine noloc rs0).
+Proof. exact X.BC.SourceGuard.alignment_is_not_implied. Qed.
+
+(* the hypotheses on the nested example, also under a budget that refuses the run midway *)
+Example C01_source_pipeline_dyn_nonvacuous :
+  X.BC.SourceGuard.cfg_int BrVMSteps.w_cfg = true /\ X.BC.SourceGuard.cfg_int (mkCfg false 7) = true /\
+  match X.BC.SourceCorrect.cap_code with
+  | Some P =>
+      X.BC.SourceGuard.run_guard_dyn BrVMSteps.w_fe BrVMSteps.w_cfg VNil P 9 init_state = true /\
+      X.BC.SourceGuard.run_guard_dyn BrVMSteps.w_fe (mkCfg false 7) VNil P 9 init_state = true /\
+      option_map VMSteps.erase_stop_mem (VMSteps.interp_run BrVMSteps.w_fe (mkCfg false 7) VNil P GenVMSteps.vm_src 9 X.BC.SourceCorrect.cap_dirty)
+      = Some (VMSteps.erase_stop_mem (run_ref BrVMSteps.w_fe (mkCfg false 7) VNil CastNone X.BC.SourceCorrect.cap_ex))
+  | None => False
+  end.
+Proof. exact X.BC.SourceGuard.source_pipeline_dyn_nonvacuous. Qed.
